@@ -289,6 +289,15 @@ theorem triple_iff {α} (m : M α) (P : State → Prop) (Q : α → State → Pr
     have := h s hp
     split at this <;> simp_all
 
+/-- match-free reading of a triple -/
+theorem run_of_triple {α} {m : M α} {P : State → Prop} {Q : α → State → Prop} {E : Exc → State → Prop}
+    (h : ⦃fun s => ⌜P s⌝⦄ m ⦃post⟨fun a s => ⌜Q a s⌝, fun e s => ⌜E e s⌝⟩⦄) (s : State) (hp : P s) :
+    (∀ a s', m.run.run s = (.ok a, s') → Q a s') ∧ (∀ e s', m.run.run s = (.error e, s') → E e s') := by
+  have := (triple_iff _ _ _ _).mp h s hp
+  constructor
+  · intro a s' heq; rw [heq] at this; exact this
+  · intro e s' heq; rw [heq] at this; exact this
+
 /-- an opaque wrapper: keeps `mvcgen` from unifying the goal's postcondition with the
     postcondition of a callee's spec (which would instantiate the callee's logical variable
     with the caller's initial state at tail calls) -/
